@@ -338,7 +338,7 @@ def jobs(tier):
     T = 400 if q else 900
     J = []
     for name in sorted(TABLE):
-        J.append({"module": "c20", "fn": "h_retain", "part": {"tool": name, "L": (12 if q else 24)}, "timeout": T})
+        J.append({"module": "c20", "fn": "h_retain", "part": {"tool": name, "L": (12 if q else (24 if TABLE[name][1] == 1 else 16))}, "timeout": T})
     for closeat in range(0, 8):
         J.append({"module": "c20", "fn": "h_tee", "part": {"L": 8, "closeat": closeat}, "timeout": T})
     for closeat in (1, 3, 8):
@@ -349,7 +349,7 @@ def jobs(tier):
 LEVEL = "other"
 BOUNDS = {
     "quick": "stream length L = 0..12 (symbolic), window n = 1..3 (batched size, islice step, nlargest/nsmallest n); live source items counted (weak references after gc.collect()) at every pull of every source, i.e. after every consumer step; 28 streaming tools / forms and 9 single-pass aggregations (incl. sync sources that are sized but create their items lazily, and islice skipping 5 items); tee: 2 children over 8 items, every progress pattern of 6 symbolic + 2 fixed steps, child 1 closed early before step 0..6 or never; the concrete pre-flight additionally runs L=30, 60 and 200",
-    "thorough": "L = 0..24",
+    "thorough": "L = 0..24 (two-source tools: L = 0..16; map and merge of two sources did not exhaust at 24)",
 }
 OUTSIDE = ["streams of 50..2000 items: the same constant bound is claimed only up to L (symbolically) and L=200 (pre-flight)", "cycle, lagging tee children, sorted and the collection builders accumulate by design"]
 NONTRIVIAL_RULE = ">=6 source items produced on the path"
